@@ -26,7 +26,12 @@ for d in sorted(os.listdir(root)):
     json.dump(meta,open(p+'/meta.json','w'),indent=1)
     rows.append(meta)
     print(d, meta['confirmed'], 'check_exit=',meta['check_exit'], flush=True)
-if not only:
+# RESULTS.md is rebuilt from every meta.json present (this run's and earlier runs')
+rows=[]
+for d in sorted(os.listdir(root)):
+    mp=os.path.join(root,d,'meta.json')
+    if os.path.exists(mp): rows.append(json.load(open(mp)))
+if True:
     with open(root+'/RESULTS.md','w') as f:
         f.write('# Seeded changes: which check catches which\n\nEach change was written by an independent sub-agent that saw only the property text and a scratch worktree.\n`suite` = existing test suite with the change; `demo` = the agent\'s demonstration with / without the change; `check` = exit code of `bin/symgo check <property> --tier quick` with the change applied to /repo (1 = VIOLATION).\n\n| seed | property | suite | demo with/without | check | caught by |\n|---|---|---|---|---|---|\n')
         for m in rows:
